@@ -227,6 +227,16 @@ func run(c *mon.Ctx) {
 			case 2:
 				evs, ptss = [2]uint32{0xffffffff, 0}, [2]uint64{1<<32 + 5, 5}
 			}
+			if pi%4 == 3 {
+				// signal times one tick apart (and across the 33-bit wrap): equal means equal, not "close"
+				ptss = [2]uint64{1000, 1001}
+				if r.Chance(3) {
+					ptss = [2]uint64{1<<33 - 1, 0}
+				}
+				if r.Chance(2) {
+					ptss[1] = ptss[0] + 2
+				}
+			}
 			a := attrs{
 				Type:    r.PickByte([]byte{0x34, 0x36, 0x35, 0x30, 0x10, 0x11}),
 				Event:   evs[r.Intn(2)],
@@ -256,7 +266,12 @@ func run(c *mon.Ctx) {
 			for j := 0; j < n; j++ {
 				eq[i][j] = ds[i].Equal(ds[j])
 				c.Eval(1)
-				if want := defEq(as[i], as[j]); eq[i][j] != want {
+				if !as[i].HasSub && !as[j].HasSub && (as[i].SubNum != as[j].SubNum || as[i].SubExp != as[j].SubExp) && defEq(as[i], as[j]) {
+					// neither descriptor carries sub-segment fields, but the numbers stored by earlier setter calls
+					// differ: "same sub-segment numbers" can be read either way, so either answer is accepted here
+					// (symmetry, transitivity and congruence are still checked on whatever the library answers)
+					c.Count("equal.flagless_sub_numbers_differ")
+				} else if want := defEq(as[i], as[j]); eq[i][j] != want {
 					c.Fail("equal:definition/"+diffPattern(as[i], as[j]), fmt.Sprintf("a.Equal(b)=%v; by the definition (same type, signal time, event id, segment and sub-segment numbers, both signals with a PTS) it is %v", eq[i][j], want), wit{A: as[i], B: as[j], Detail: "differs in: " + diffPattern(as[i], as[j])})
 				}
 				c.Class("equal/" + diffPattern(as[i], as[j]))
@@ -309,7 +324,11 @@ func run(c *mon.Ctx) {
 			return
 		}
 		for round := 0; round < 4; round++ {
-			switch r.Intn(6) {
+			switch r.Intn(7) {
+			case 6:
+				// the incoming descriptor is re-typed after it has already answered CanClose / Equal
+				a.Type = r.PickByte([]byte{0x34, 0x36, 0x34, 0x36, 0x35, 0x37, 0x31, 0x11, 0x41, 0x10, 0x30, 0x44, 0x45})
+				da.SetTypeID(scte35.SegDescType(a.Type))
 			case 0:
 				a.Event = uint32(1 + r.Intn(2))
 				da.SetEventID(a.Event)
